@@ -196,31 +196,42 @@ def check_case(rec):
             return out
         ns = gx.exec_module(gx.numpy_code(ode2))
         p = ns["init_parameter_values"]()
-        # the imported model before it was saved, where it can be generated directly (C11: saving changes nothing)
-        try:
-            ns_pre = gx.exec_module(gx.numpy_code(ode))
-            p_pre = ns_pre["init_parameter_values"]()
-        except Exception:  # noqa: BLE001
-            ns_pre = None
+        # the imported model BEFORE it was saved cannot be generated (documented), but its sympy expressions can be
+        # evaluated: what they give at a point is what the reloaded model must give (C11: saving changes nothing)
+        def unsaved_rhs(point):
+            import sympy
+            # by NAME: the symbols inside the imported expressions and the atoms' own symbols differ in assumptions
+            inter = {a.name: a.expr for a in ode.intermediates}
+            vals = {uname[q]: sympy.Float(qf(point["state"][q])) for q in qnames}
+            vals.update({pp.name: sympy.Float(float(pp.value)) for pp in ode.parameters})
+            vals[str(ode.t)] = sympy.Float(0.0)
+            res_ = {}
+            for dd in ode.state_derivatives:
+                e = dd.expr
+                for _ in range(len(inter) + 2):
+                    rep = {sy: inter[sy.name] for sy in e.free_symbols if sy.name in inter}
+                    if not rep:
+                        break
+                    e = e.xreplace(rep)
+                v = sympy.N(e.xreplace({sy: vals[sy.name] for sy in e.free_symbols if sy.name in vals}))
+                res_[dd.state.name] = float(v) if v.is_number and v.is_real else None
+            return res_
         for pt in rec["points"]:
             s = np.zeros(len(qnames))
             for q in qnames:
                 s[ns["state_index"](uname[q])] = qf(pt["state"][q])
             with gx.quiet_np():
                 vals = ns["rhs"](0.0, s, p)
-            if ns_pre is not None:
-                try:
-                    s_pre = np.zeros(len(qnames))
-                    for q in qnames:
-                        s_pre[ns_pre["state_index"](uname[q])] = qf(pt["state"][q])
-                    with gx.quiet_np():
-                        v_pre = ns_pre["rhs"](0.0, s_pre, p_pre)
-                    for q in qnames:
-                        a, b = float(v_pre[ns_pre["state_index"](uname[q])]), float(vals[ns["state_index"](uname[q])])
-                        if a == a and b == b and abs(a - b) > 1e-9 * max(1.0, abs(a)):
-                            out["problems"].append({"kind": "save-reload-changes-rhs", "state": q, "before_saving": a, "after_reload": b})
-                except Exception:  # noqa: BLE001
-                    pass
+            try:
+                pre = unsaved_rhs(pt)
+            except Exception:  # noqa: BLE001
+                pre = {}
+            for q in qnames:
+                a, b = pre.get(uname[q]), float(vals[ns["state_index"](uname[q])])
+                if a is not None and a == a and b == b and abs(a - b) > 1e-9 * max(1.0, abs(a)):
+                    out["problems"].append({"kind": "save-reload-changes-rhs", "state": q, "before_saving": a, "after_reload": b})
+                elif a is not None:
+                    out["unsaved_compared"] = out.get("unsaved_compared", 0) + 1
             for q in qnames:
                 want, mag = resid.value(pt["deriv"][q])
                 out["compared"] += 1
